@@ -81,12 +81,44 @@ def run(prog, rep, tier='quick', config='default'):
                     org = mir.provenance(fn, a, follow_all_call_args=False)
                     if c in org.calls and (org.downcasts & {'Ok', 'Continue'}):
                         dep = True
-        if dep:
+        # ... and must not be reachable from the Err outcome of the parse
+        err_reach = set()
+        for i, b in fn.blocks.items():
+            t = b['term']
+            if not t or t['t'] != 'switch' or not fn.dominates(c.bb, i):
+                continue
+            d = mir.provenance(fn, t['discr'])
+            if c not in d.calls:
+                continue
+            for v, tg in t['targets']:
+                if v == 1:     # Result::Err / ControlFlow::Break
+                    err_reach |= {tg} | fn.reachable_from(tg)
+        via_err = [x for (x, g) in procs if x.bb in err_reach]
+        if via_err:
+            dep = False
+            rep.violation('R16a', k + '|err-arm-continues', where=via_err[0].where(), fn=fn.name,
+                          detail='processing is reachable from the Err outcome of parse_initial_status: a malformed --symbol-base specification is not rejected '
+                                 'before processing')
+        elif dep:
             rep.ok('R16a', k, where=c.where(), fn=fn.name,
                    detail='%d processing call(s), all dominated by parse_initial_status; processing receives the Ok payload of the parse' % len(procs))
         else:
             rep.violation('R16a', k, where=c.where(), fn=fn.name,
                           detail='processing does not depend on the successful result of parse_initial_status (its Err outcome may be ignored)')
+
+    # ------------------------------------------------------------------ R16c: the key is the symbol as given (trimmed), like CSV securities
+    ins = [x for x in parse.calls if x.short == 'insert' and MAPTY.search(parse.ty.get(x.arg_local(0), '') or '')]
+    if not ins:
+        rep.violation('R16c', 'anchor-lost:map-insert', fn=parse.name, detail='anchor lost: insertion into the opening-position map')
+    for x in ins:
+        ko = mir.provenance(parse, x.args[1], follow_all_call_args=True)
+        bad = [y for y in ko.calls if re.search(r'to_(ascii_)?(upper|lower)case|replace|to_uppercase|to_lowercase|make_ascii|trim_(start|end)_matches|strip_', y.callee)]
+        if bad:
+            rep.violation('R16c', 'symbol-key-unmodified', where=bad[0].where(), fn=parse.name,
+                          detail='the opening position is filed under a transformed symbol (%s): securities in the CSV are matched verbatim, so the position '
+                                 'would miss its security or land on another one' % short(bad[0].callee))
+        else:
+            rep.ok('R16c', 'symbol-key-unmodified', where=x.where(), fn=parse.name, detail='the map key is the given symbol (trimmed only)')
 
     # ------------------------------------------------------------------ R16b
     ALLOWED = {'get', 'contains_key', 'new', 'with_capacity', 'drop', 'clone', 'default', 'insert'}
